@@ -66,6 +66,22 @@ type c04Worker struct {
 
 var pacW *c04Worker
 
+// functions run in the worker by name (they reach the external NDR reader); stateless: a fixed key is enough
+var c04Key = types.EncryptionKey{KeyType: 18, KeyValue: []byte("0123456789abcdef0123456789abcdef")}
+var isoFuncs = map[string]func(b []byte){
+	"pac.CredentialsInfo.Unmarshal":        func(b []byte) { var x pac.CredentialsInfo; x.Unmarshal(b, c04Key) },
+	"pac.CredentialData.Unmarshal":         func(b []byte) { var x pac.CredentialData; x.Unmarshal(b) },
+	"pac.DeviceClaimsInfo.Unmarshal":       func(b []byte) { var x pac.DeviceClaimsInfo; x.Unmarshal(b) },
+	"pac.DeviceInfo.Unmarshal":             func(b []byte) { var x pac.DeviceInfo; x.Unmarshal(b) },
+	"pac.S4UDelegationInfo.Unmarshal":      func(b []byte) { var x pac.S4UDelegationInfo; x.Unmarshal(b) },
+	"pac.NTLMSupplementalCred.Unmarshal":   func(b []byte) { var x pac.NTLMSupplementalCred; x.Unmarshal(b) },
+	"pac.SECPKGSupplementalCred.Unmarshal": func(b []byte) { var x pac.SECPKGSupplementalCred; x.Unmarshal(b) },
+	"pac.ClientClaimsInfo.Unmarshal":       func(b []byte) { var x pac.ClientClaimsInfo; x.Unmarshal(b) },
+	"pac.KerbValidationInfo.Unmarshal":     func(b []byte) { var x pac.KerbValidationInfo; x.Unmarshal(b) },
+	"pac.UPNDNSInfo.Unmarshal":             func(b []byte) { var x pac.UPNDNSInfo; x.Unmarshal(b) },
+	"pac.ClientInfo.Unmarshal":             func(b []byte) { var x pac.ClientInfo; x.Unmarshal(b) },
+}
+
 func init() {
 	if os.Getenv("VERIF_C04_WORKER") == "pac" {
 		lim := syscall.Rlimit{Cur: 256 << 20, Max: 256 << 20}
@@ -78,15 +94,20 @@ func init() {
 				os.Exit(0)
 			}
 			f := strings.Fields(line)
-			if len(f) != 2 {
+			if len(f) != 3 {
 				os.Exit(0)
 			}
-			b, _ := hex.DecodeString(strings.TrimPrefix(f[0], "x"))
-			kv, _ := hex.DecodeString(strings.TrimPrefix(f[1], "x"))
+			name := f[0]
+			b, _ := hex.DecodeString(strings.TrimPrefix(f[1], "x"))
+			kv, _ := hex.DecodeString(strings.TrimPrefix(f[2], "x"))
 			var ms0, ms1 runtime.MemStats
 			runtime.ReadMemStats(&ms0)
 			t0 := time.Now()
 			p, pv := guard(func() {
+				if fn, ok := isoFuncs[name]; ok {
+					fn(b)
+					return
+				}
 				var x pac.PACType
 				if x.Unmarshal(b) == nil {
 					x.ProcessPACInfoBuffers(types.EncryptionKey{KeyType: 18, KeyValue: kv}, nil)
@@ -122,13 +143,15 @@ func startPacWorker() *c04Worker {
 	return w
 }
 
-func pacIsolated(key []byte) func(b []byte) isoResult {
+func pacIsolated(key []byte) func(b []byte) isoResult { return isolated("pac", key) }
+
+func isolated(name string, key []byte) func(b []byte) isoResult {
 	return func(b []byte) isoResult {
 		if pacW == nil {
 			pacW = startPacWorker()
 		}
 		w := pacW
-		fmt.Fprintf(w.in, "x%s x%s\n", hex.EncodeToString(b), hex.EncodeToString(key))
+		fmt.Fprintf(w.in, "%s x%s x%s\n", name, hex.EncodeToString(b), hex.EncodeToString(key))
 		type rd struct {
 			line string
 			err  error
@@ -262,6 +285,9 @@ func mutateAll(c *Ctx, ep *entryPoint) {
 		if c.Quick() && len(base) > 160 {
 			step = len(base)/160 + 1
 		}
+		if c.Quick() && ep.iso != nil && ep.name != "pac.PACType.Unmarshal+Process" {
+			step = len(base)/24 + 1 // probes of the sub-decoders go through the worker process one by one
+		}
 		for cut := 0; cut < len(base); cut += step {
 			probe(c, ep, base[:cut], "prefix")
 		}
@@ -318,6 +344,9 @@ func mutateAll(c *Ctx, ep *entryPoint) {
 		step8 := 4
 		if c.Quick() && len(base) > 256 {
 			step8 = 4 * (len(base)/256 + 1)
+		}
+		if c.Quick() && ep.iso != nil && ep.name != "pac.PACType.Unmarshal+Process" {
+			step8 = 4 * (len(base)/64 + 1)
 		}
 		for pos := 0; pos+8 <= len(base); pos += step8 {
 			if skipped(pos, 8) {
@@ -496,6 +525,7 @@ func c04(c *Ctx) {
 		}},
 		{name: "credentials.CCache.Unmarshal", corpus: [][]byte{ccB}, call: func(b []byte) { new(credentials.CCache).Unmarshal(b) }},
 		{name: "config.NewFromString", corpus: [][]byte{confT}, call: func(b []byte) { config.NewFromString(string(b)) }},
+		{name: "pac.PACType.Unmarshal", corpus: [][]byte{pacB}, call: func(b []byte) { var x pac.PACType; x.Unmarshal(b) }}, // gokrb5's own table reader, apart from the external buffer decoders
 		{name: "pac.PACType.Unmarshal+Process", corpus: [][]byte{pacB}, call: func(b []byte) {
 			var x pac.PACType
 			if x.Unmarshal(b) == nil {
@@ -511,6 +541,65 @@ func c04(c *Ctx) {
 		{name: "service.KRB5BasicAuthenticator.Authenticate(decoded)", corpus: [][]byte{[]byte("testuser1@NOWHERE.REALM:passwordvalue"), []byte("NOWHERE\\testuser1:pw"), []byte("user:pw"), []byte("nocolon")}, call: func(b []byte) {
 			service.NewKRB5BasicAuthenticator(base64.StdEncoding.EncodeToString(b), config.New(), service.NewSettings(keytab.New()), nil).Authenticate()
 		}},
+		// decoders that no other stream reaches (found with a coverage build of the harness)
+		{name: "messages.EncAPRepPart.Unmarshal", corpus: [][]byte{hexs(testdata.MarshaledKRB5ap_rep_enc_part), hexs(testdata.MarshaledKRB5ap_rep_enc_partOptionalsNULL)}, call: func(b []byte) { var x messages.EncAPRepPart; x.Unmarshal(b) }},
+		{name: "messages.KRBCred.Unmarshal+Decrypt", corpus: [][]byte{hexs(testdata.MarshaledKRB5cred)}, call: func(b []byte) {
+			var x messages.KRBCred
+			if x.Unmarshal(b) == nil {
+				x.DecryptEncPart(svc.keys[18])
+			}
+		}},
+		{name: "messages.EncKrbCredPart.Unmarshal", corpus: [][]byte{hexs(testdata.MarshaledKRB5enc_cred_part), hexs(testdata.MarshaledKRB5enc_cred_partOptionalsNULL)}, call: func(b []byte) { var x messages.EncKrbCredPart; x.Unmarshal(b) }},
+		{name: "types.ADKDCIssued.Unmarshal", corpus: [][]byte{hexs(testdata.MarshaledKRB5ad_kdcissued)}, call: func(b []byte) { var x types.ADKDCIssued; x.Unmarshal(b) }},
+		{name: "types.AuthorizationData.Unmarshal", corpus: [][]byte{hexs(testdata.MarshaledKRB5authorization_data)}, call: func(b []byte) {
+			var x types.AuthorizationData
+			x.Unmarshal(b)
+			var e types.AuthorizationDataEntry
+			e.Unmarshal(b)
+		}},
+		{name: "types.EncryptionKey.Unmarshal", corpus: [][]byte{hexs(testdata.MarshaledKRB5keyblock)}, call: func(b []byte) {
+			var x types.EncryptionKey
+			x.Unmarshal(b)
+			var c types.Checksum
+			c.Unmarshal(b)
+		}},
+		{name: "types.PAData.Unmarshal", corpus: [][]byte{hexs(testdata.MarshaledKRB5padata_sequence), hexs(testdata.MarshaledKRB5pa_enc_ts), hexs(testdata.MarshaledKRB5enc_data)}, call: func(b []byte) {
+			var x types.PAData
+			x.Unmarshal(b)
+			var s types.PADataSequence
+			s.Unmarshal(b)
+			var t types.PAEncTimestamp
+			t.Unmarshal(b)
+			var e types.PAEncTSEnc
+			e.Unmarshal(b)
+			var r types.PAReqEncPARep
+			r.Unmarshal(b)
+		}},
+		{name: "types.ETypeInfo.Unmarshal", corpus: [][]byte{hexs(testdata.MarshaledKRB5etype_info), hexs(testdata.MarshaledKRB5etype_info2), hexs(testdata.MarshaledKRB5etype_infoOnly1), hexs(testdata.MarshaledKRB5etype_info2Only1)}, call: func(b []byte) {
+			var a types.ETypeInfo
+			a.Unmarshal(b)
+			var a2 types.ETypeInfo2
+			a2.Unmarshal(b)
+			var e types.ETypeInfoEntry
+			e.Unmarshal(b)
+			var e2 types.ETypeInfo2Entry
+			e2.Unmarshal(b)
+			pa := types.PAData{PADataType: 11, PADataValue: b}
+			pa.GetETypeInfo()
+			pa.PADataType = 19
+			pa.GetETypeInfo2()
+		}},
+		{name: "types.TypedDataSequence.Unmarshal", corpus: [][]byte{hexs(testdata.MarshaledKRB5typed_data)}, call: func(b []byte) { var x types.TypedDataSequence; x.Unmarshal(b) }},
+		{name: "pac.CredentialsInfo.Unmarshal", corpus: [][]byte{append([]byte{0, 0, 0, 0, 18, 0, 0, 0}, ct18.Cipher...), hexs(testdata.MarshaledPAC_Client_Info)}, call: isoFuncs["pac.CredentialsInfo.Unmarshal"], iso: isolated("pac.CredentialsInfo.Unmarshal", nil)},
+		{name: "pac.CredentialData.Unmarshal", corpus: [][]byte{hexs(testdata.MarshaledPAC_Kerb_Validation_Info)}, call: isoFuncs["pac.CredentialData.Unmarshal"], iso: isolated("pac.CredentialData.Unmarshal", nil)},
+		{name: "pac.DeviceClaimsInfo.Unmarshal", corpus: [][]byte{hexs(testdata.MarshaledPAC_ClientClaimsInfoStr)}, call: isoFuncs["pac.DeviceClaimsInfo.Unmarshal"], iso: isolated("pac.DeviceClaimsInfo.Unmarshal", nil)},
+		{name: "pac.DeviceInfo.Unmarshal", corpus: [][]byte{hexs(testdata.MarshaledPAC_Kerb_Validation_Info)}, call: isoFuncs["pac.DeviceInfo.Unmarshal"], iso: isolated("pac.DeviceInfo.Unmarshal", nil)},
+		{name: "pac.S4UDelegationInfo.Unmarshal", corpus: [][]byte{hexs(testdata.MarshaledPAC_Kerb_Validation_Info)}, call: isoFuncs["pac.S4UDelegationInfo.Unmarshal"], iso: isolated("pac.S4UDelegationInfo.Unmarshal", nil)},
+		{name: "pac.NTLMSupplementalCred.Unmarshal", corpus: [][]byte{append([]byte{0, 0, 0, 0, 3, 0, 0, 0}, make([]byte, 32)...)}, call: isoFuncs["pac.NTLMSupplementalCred.Unmarshal"], iso: isolated("pac.NTLMSupplementalCred.Unmarshal", nil)},
+		{name: "pac.SECPKGSupplementalCred.Unmarshal", corpus: [][]byte{hexs(testdata.MarshaledPAC_Kerb_Validation_Info)}, call: isoFuncs["pac.SECPKGSupplementalCred.Unmarshal"], iso: isolated("pac.SECPKGSupplementalCred.Unmarshal", nil)},
+		{name: "pac.ClientClaimsInfo.Unmarshal", corpus: [][]byte{hexs(testdata.MarshaledPAC_ClientClaimsInfoStr), hexs(testdata.MarshaledPAC_ClientClaimsInfoMulti)}, call: isoFuncs["pac.ClientClaimsInfo.Unmarshal"], iso: isolated("pac.ClientClaimsInfo.Unmarshal", nil)},
+		{name: "pac.UPNDNSInfo.Unmarshal", corpus: [][]byte{hexs(testdata.MarshaledPAC_UPN_DNS_Info)}, call: isoFuncs["pac.UPNDNSInfo.Unmarshal"], iso: isolated("pac.UPNDNSInfo.Unmarshal", nil)},
+		{name: "pac.ClientInfo.Unmarshal", corpus: [][]byte{hexs(testdata.MarshaledPAC_Client_Info)}, call: isoFuncs["pac.ClientInfo.Unmarshal"], iso: isolated("pac.ClientInfo.Unmarshal", nil)},
 		{name: "kadmin.Reply.Unmarshal", corpus: [][]byte{kadminReply, kadminErr}, call: func(b []byte) { var x kadmin.Reply; x.Unmarshal(b) }},
 		{name: "crypto.DecryptMessage(aes256-sha1)", corpus: [][]byte{ct18.Cipher}, call: func(b []byte) { crypto.DecryptMessage(b, svc.keys[18], 2) }, model: decModel(18)},
 		{name: "crypto.DecryptMessage(rc4)", corpus: [][]byte{ct23.Cipher}, call: func(b []byte) { crypto.DecryptMessage(b, svc.keys[23], 2) }, model: decModel(23)},
@@ -642,6 +731,162 @@ func c04(c *Ctx) {
 		}
 	}
 	_ = strings.TrimSpace
+	c04Kpasswd(c)
+}
+
+// c04Kpasswd drives Client.ChangePasswd against a simulated KDC (AS exchange for kadmin/changepw) and a scripted
+// kpasswd server (RFC 3244) that answers with genuine replies of every result code, with a KRB-ERROR, with replies
+// sealed under another key, and with every truncation and sampled byte substitutions of a genuine reply.
+func c04Kpasswd(c *Ctx) {
+	realm := "TEST.GOKRB5"
+	k := kdc.New(realm)
+	k.AddPrincipal([]string{"testuser1"}, "passwordvalue", 2)
+	kp := k.AddPrincipal([]string{"kadmin", "changepw"}, "kpasswd-service-pw", 1)
+	if err := k.Serve(); err != nil {
+		c.Notes = append(c.Notes, "KDC listen (kpasswd): "+err.Error())
+		return
+	}
+	defer k.Close()
+	l, err := net.ListenTCP("tcp", &net.TCPAddr{IP: net.IPv4(127, 0, 0, 1)})
+	if err != nil {
+		c.Notes = append(c.Notes, "kpasswd listen: "+err.Error())
+		return
+	}
+	defer l.Close()
+	var mode func(genuine []byte, sub types.EncryptionKey) []byte
+	seen := 0
+	go func() {
+		for {
+			conn, err := l.AcceptTCP()
+			if err != nil {
+				return
+			}
+			go func(conn *net.TCPConn) {
+				defer conn.Close()
+				hdr := make([]byte, 4)
+				if _, err := io.ReadFull(conn, hdr); err != nil {
+					return
+				}
+				req := make([]byte, binary.BigEndian.Uint32(hdr))
+				if _, err := io.ReadFull(conn, req); err != nil || len(req) < 6 {
+					return
+				}
+				seen++
+				// the request: msg-len(2) version(2) ap-req-len(2) AP-REQ KRB-PRIV
+				al := int(binary.BigEndian.Uint16(req[4:6]))
+				var ap messages.APReq
+				if 6+al > len(req) || ap.Unmarshal(req[6:6+al]) != nil {
+					return
+				}
+				if ap.Ticket.Decrypt(kp.Keys[ap.Ticket.EncPart.EType]) != nil {
+					return
+				}
+				ab, err := crypto.DecryptEncPart(ap.EncryptedAuthenticator, ap.Ticket.DecryptedEncPart.Key, 11)
+				if err != nil {
+					return
+				}
+				var au types.Authenticator
+				if au.Unmarshal(ab) != nil {
+					return
+				}
+				reply := mode(nil, au.SubKey)
+				out := make([]byte, 4)
+				binary.BigEndian.PutUint32(out, uint32(len(reply)))
+				conn.Write(append(out, reply...))
+			}(conn)
+		}
+	}()
+	aprep := hexs(testdata.MarshaledKRB5ap_rep)
+	genuine := func(code uint16, text string, key types.EncryptionKey) []byte {
+		ud := make([]byte, 2)
+		binary.BigEndian.PutUint16(ud, code)
+		ud = append(ud, []byte(text)...)
+		priv := messages.NewKRBPriv(messages.EncKrbPrivPart{UserData: ud, Timestamp: time.Now().UTC().Truncate(time.Second), SAddress: types.HostAddress{AddrType: 2, Address: []byte{127, 0, 0, 1}}})
+		if priv.EncryptEncPart(key) != nil {
+			return nil
+		}
+		pb, _ := priv.Marshal()
+		b := make([]byte, 6)
+		binary.BigEndian.PutUint16(b[2:], 1)
+		binary.BigEndian.PutUint16(b[4:], uint16(len(aprep)))
+		b = append(append(b, aprep...), pb...)
+		binary.BigEndian.PutUint16(b[0:], uint16(len(b)))
+		return b
+	}
+	cfg := testConfig(realm, []string{k.Addr}, []int32{18})
+	cfg.Realms[0].KPasswdServer = []string{l.Addr().String()}
+	cfg.LibDefaults.UDPPreferenceLimit = 1
+	run := func(name string, wantOK, wantErr bool) {
+		cl := client.NewWithPassword("testuser1", realm, "passwordvalue", cfg, client.DisablePAFXFAST(true))
+		var ok bool
+		var err error
+		n0 := seen
+		p, pv := guard(func() { ok, err = cl.ChangePasswd("new-password-value") })
+		reached := seen > n0
+		inp := map[string]interface{}{"reply": name}
+		c.Check(!p, "never panics", "panic:client.ChangePasswd", fmt.Sprint(pv), inp)
+		c.Check(reached, "the kpasswd server was reached", "kpasswd-not-reached", fmt.Sprint(err), inp)
+		if wantOK {
+			c.Check(ok && err == nil, "a genuine success reply changes the password", "kpasswd:success-refused", fmt.Sprint(err), inp)
+		}
+		if wantErr {
+			c.Check(!ok && err != nil, "anything but a genuine success reply is an error", "kpasswd:accepted:"+name, fmt.Sprint(ok, err), inp)
+		}
+		c.Count("kpasswd:" + strings.SplitN(name, "@", 2)[0])
+	}
+	mode = func(_ []byte, sub types.EncryptionKey) []byte { return genuine(0, "Password changed", sub) }
+	run("success", true, false)
+	for code := uint16(1); code <= 8; code++ {
+		cc := code
+		mode = func(_ []byte, sub types.EncryptionKey) []byte { return genuine(cc, "refused", sub) }
+		run(fmt.Sprintf("result-code-%d", cc), false, true)
+	}
+	mode = func(_ []byte, sub types.EncryptionKey) []byte { return genuine(0, "ok", randKey(c, sub.KeyType)) }
+	run("other-key", false, true)
+	mode = func(_ []byte, sub types.EncryptionKey) []byte { return genuine(0, "", sub)[:4] }
+	run("header-only", false, true)
+	mode = func(_ []byte, sub types.EncryptionKey) []byte {
+		ke := messages.NewKRBError(types.PrincipalName{NameType: 2, NameString: []string{"kadmin", "changepw"}}, realm, 41, "error")
+		ke.EData = []byte{0, 3, 'n', 'o'}
+		eb, _ := ke.Marshal()
+		b := make([]byte, 6)
+		binary.BigEndian.PutUint16(b[2:], 1)
+		b = append(b, eb...)
+		binary.BigEndian.PutUint16(b[0:], uint16(len(b)))
+		return b
+	}
+	run("krb-error", false, true)
+	// truncations and substitutions of a genuine success reply
+	probe := func(kind string, f func(g []byte) []byte) {
+		mode = func(_ []byte, sub types.EncryptionKey) []byte { return f(genuine(0, "Password changed", sub)) }
+		run(kind, false, false)
+	}
+	glen := len(genuine(0, "Password changed", randKey(c, 18)))
+	step := 1
+	if c.Quick() {
+		step = glen/40 + 1
+	}
+	for cut := 0; cut < glen; cut += step {
+		cc := cut
+		probe(fmt.Sprintf("truncated@%d", cc), func(g []byte) []byte {
+			if cc < len(g) {
+				return g[:cc]
+			}
+			return g
+		})
+	}
+	for pos := 0; pos < glen; pos += step {
+		pp := pos
+		for _, v := range []byte{0x00, 0xff, 0x80} {
+			vv := v
+			probe(fmt.Sprintf("substituted@%d", pp), func(g []byte) []byte {
+				if pp < len(g) {
+					g[pp] = vv
+				}
+				return g
+			})
+		}
+	}
 }
 
 // mintWithAuthData: mint with authorization data sealed in the ticket
